@@ -765,6 +765,9 @@ func (f *Frame) builtin(b *ssa.Builtin, c *ssa.CallCommon, args []Val, at ssa.In
 	case "copy":
 		return f.copyBuiltin(c, args, st)
 	case "delete":
+		if at != nil {
+			f.needLock(args[0].G, 2, st, at, "map delete")
+		}
 		f.mapStore(c.Args[0].Type(), args[0].T, args[1].T, nil, st)
 		return Val{}
 	case "recover":
